@@ -10,6 +10,7 @@ CONSTANTS
   MaxIx = 2
   MaxDepth = 3
   CellMask = TRUE
+  CopyClear = TRUE
   Valueless = TRUE
   Deviations = {}
 VIEW vw
